@@ -547,7 +547,7 @@ func runAmbient(t *testing.T) {
 				rec.NT("ambient\x00" + c.Query + "\x00" + univ.Show(c.Input.X))
 			}
 			sample("ambient", map[string]any{"sub": "ambient", "query": c.Query, "input": univ.Show(c.Input.X), "result": tail(p, 300)})
-			if msg := ambientMsg(c, a[i], b[i], p); msg != "" {
+			if msg := ambientMsg(c, a[i], b[i], p); msg != "" && rec.Violations() <= 20 {
 				// confirm on the single case, in fresh children
 				if msg2 := checkAmbient(c); msg2 != "" {
 					rec.Direct("ambient", c, "%s", msg2)
